@@ -272,8 +272,9 @@ class WriteFile:
     (or when the 8 KiB buffer fills up); a killed process loses what is still buffered."""
     BUFFER = 8192
 
-    def __init__(self, world, path, node, text=False):
+    def __init__(self, world, path, node, text=False, pos=None):
         self.world, self.path, self.node, self.text = world, path, node, text
+        self.pos = pos  # None: append at the end; a number: overwrite in place from that offset (file opened without O_TRUNC)
         self.closed = False
         self.pending = []
         world.open_writers.append(self)
@@ -290,7 +291,14 @@ class WriteFile:
         self.pending = []
         if upto is not None:
             data = data[:upto]
-        if data:
+        if data and self.pos is not None:
+            old = b"".join(self.node.content)
+            new = old[:self.pos] + data + old[self.pos + len(data):]
+            self.pos += len(data)
+            self.node.content[:] = [new]
+            self.node.size = len(new)
+            self.node.cid = self.world.content_cid(self.node)
+        elif data:
             self.node.content.append(data)
             self.node.size = self.node.size + len(data)
             self.node.cid = self.world.content_cid(self.node)
@@ -639,7 +647,7 @@ class World:
             if self.nodes[p].kind == "dir":
                 raise IsADirectoryError(21, "Is a directory", p)
             return ReadFile(self, p, self.nodes[p], text)
-        if m in ("w", "x", "a", "w+"):
+        if m in ("w", "x", "a", "w+", "r+"):
             if posixpath.dirname(p) not in self.nodes:
                 raise FileNotFoundError(2, "No such file or directory", p)
             if p in self.nodes and self.nodes[p].kind == "dir":
@@ -652,6 +660,12 @@ class World:
                     raise ModelGap("append to opaque file")
                 self.op("open_a", p)
                 return WriteFile(self, p, n, text)
+            if m == "r+" and p in self.nodes:
+                n = self.nodes[p]
+                if n.content is None:
+                    raise ModelGap("in-place write to opaque file")
+                self.op("open_rw", p)
+                return WriteFile(self, p, n, text, pos=0)
             self.op("open_w", p)
             n = Node("file", 0, 0, self.now)
             n.content = []
@@ -749,7 +763,10 @@ class FakeOS:
                 raise FileExistsError(17, "File exists", p)
             if not (flags & self.O_CREAT) and p not in w.nodes:
                 raise FileNotFoundError(2, "No such file or directory", p)
-            f = w.open(p, "ab" if (p in w.nodes and not flags & self.O_TRUNC) else "wb")
+            if p in w.nodes and not flags & self.O_TRUNC:
+                f = w.open(p, "ab" if flags & self.O_APPEND else "r+b")  # no O_TRUNC: the old bytes stay, writes start at offset 0
+            else:
+                f = w.open(p, "wb")
         else:
             f = w.open(p, "rb")
         w._fds = getattr(w, "_fds", {})
@@ -842,14 +859,23 @@ def install(world, summarise_c4=True, xsd=None):
         ins.set(m, "etree", fe)
         ins.set(m, "E", fakexml.E)
     ins.set(C, "etree", fe)
-    # time
+    # time: every ascmhl module that has `datetime` (module or class) or `time` gets the model
+    import datetime as _real_dt
+    import time as _real_time
     fdt = clock.FakeDatetimeModule(world)
-    ins.set(U, "datetime", fdt)
-    ins.set(U, "time", clock.FakeTimeModule(world))
-    ins.set(C, "datetime", fdt)
-    for m in (HL, Hi, XP, CP):
-        if "datetime" in m.__dict__:
+    ftime = clock.FakeTimeModule(world)
+    for m in (C, Hi, HL, XP, CP, HA, TR, G, IG, U):
+        d = m.__dict__.get("datetime")
+        if d is _real_dt:
+            ins.set(m, "datetime", fdt)
+        elif d is _real_dt.datetime:
             ins.set(m, "datetime", fdt.datetime)
+        if m.__dict__.get("timedelta") is _real_dt.timedelta:
+            ins.set(m, "timedelta", fdt.timedelta)
+        if m.__dict__.get("timezone") is _real_dt.timezone:
+            ins.set(m, "timezone", fdt.timezone)
+        if m.__dict__.get("time") is _real_time:
+            ins.set(m, "time", ftime)
     ins.set(XP, "dateutil", clock.FakeDateutil(world))
 
     def model_int(x, *a):
